@@ -53,6 +53,54 @@ MUTANTS = [
 ]
 
 MUTANTS += [
+    # ---- C01
+    ("gibbs_inverted_ratio", "C01", "inference/mcmc/gibbs.py",
+     "                    acceptance_prob = exp(p_new - p_old)\n                    p.submit_accept_prob(acceptance_prob)",
+     "                    acceptance_prob = exp(p_old - p_new)\n                    p.submit_accept_prob(acceptance_prob)"),
+    ("gibbs_forgets_temperature", "C01", "inference/mcmc/gibbs.py",
+     "                p_new = self.posterior(prop) * self.inv_temp\n\n                if p_new > p_old:\n                    # automatically",
+     "                p_new = self.posterior(prop)\n\n                if p_new > p_old:\n                    # automatically"),
+    ("gibbs_accept_sqrt", "C01", "inference/mcmc/gibbs.py",
+     "                    acceptance_prob = exp(p_new - p_old)\n                    p.submit_accept_prob(acceptance_prob)",
+     "                    acceptance_prob = exp(0.5 * (p_new - p_old))\n                    p.submit_accept_prob(acceptance_prob)"),
+    ("gibbs_proposal_drift", "C01", "inference/mcmc/gibbs.py",
+     "        return self.rng.normal(loc=self.samples[-1], scale=self.sigma)\n\n    def abs_proposal",
+     "        return self.rng.normal(loc=self.samples[-1] + 0.1 * self.sigma, scale=self.sigma)\n\n    def abs_proposal"),
+    ("gibbs_stale_p_old", "C01", "inference/mcmc/gibbs.py",
+     "            p_old = deepcopy(p_new)  # NOTE - is deepcopy needed?", "            pass"),
+    ("metropolis_stale_old", "C01", "inference/mcmc/gibbs.py",
+     "            if pval > self.probs[-1]:\n                break\n            else:\n                acceptance_prob = exp(pval - self.probs[-1])",
+     "            if pval > self.probs[0]:\n                break\n            else:\n                acceptance_prob = exp(pval - self.probs[0])"),
+    ("pca_accept_uses_untempered", "C01", "inference/mcmc/pca.py",
+     "                    acceptance_prob = exp(p_new - p_old)", "                    acceptance_prob = exp((p_new - p_old) / self.inv_temp)"),
+    ("pca_asymmetric_step", "C01", "inference/mcmc/pca.py",
+     "                prop = theta0 + v * p.sigma * self.rng.normal()", "                prop = theta0 + v * p.sigma * abs(self.rng.normal()) * (1 if self.chain_length % 2 else -1.3)"),
+    ("hmc_kinetic_uses_mass", "C01", "inference/mcmc/hmc/__init__.py",
+     "    def kinetic_energy(self, r: ndarray) -> float:\n        return 0.5 * (r @ self.mass.get_velocity(r))",
+     "    def kinetic_energy(self, r: ndarray) -> float:\n        return 0.5 * (r @ (r / self.mass.inv_mass)) if self.mass.inv_mass is not None and getattr(self.mass.inv_mass, 'ndim', 0) < 2 else 0.5 * (r @ self.mass.get_velocity(r))"),
+    ("hmc_final_kick_full", "C01", "inference/mcmc/hmc/__init__.py",
+     "        t += self.ES.epsilon * self.mass.get_velocity(r)\n        r += (0.5 * r_step) * self.grad(t)\n        return t, r\n\n    def bounded_leapfrog",
+     "        t += self.ES.epsilon * self.mass.get_velocity(r)\n        r += r_step * self.grad(t)\n        return t, r\n\n    def bounded_leapfrog"),
+    ("hmc_accept_inverted", "C01", "inference/mcmc/hmc/__init__.py",
+     "            accept_prob = exp(H0 - H)", "            accept_prob = exp(H - H0)"),
+    ("hmc_forgets_temperature_in_H", "C01", "inference/mcmc/hmc/__init__.py",
+     "            p = self.posterior(t) * self.inv_temp\n            H = self.kinetic_energy(r) - p", "            p = self.posterior(t) * self.inv_temp\n            H = self.kinetic_energy(r) - p / self.inv_temp"),
+    ("hmc_momentum_wrong_scale", "C01", "inference/mcmc/hmc/mass.py",
+     "        return rng.normal(size=self.n_parameters, scale=self.sqrt_mass)", "        return rng.normal(size=self.n_parameters, scale=self.sqrt_mass**2)"),
+    ("hmc_no_momentum_flip_at_wall", "C01", "inference/mcmc/hmc/__init__.py",
+     "            t, reflections = self.bounds.reflect_momenta(t)\n            r *= reflections\n            r += r_step * self.grad(t)",
+     "            t, reflections = self.bounds.reflect_momenta(t)\n            r += r_step * self.grad(t)"),
+    ("ensemble_drop_z_factor", "C01", "inference/mcmc/ensemble.py",
+     "            q = exp((self.n_parameters - 1) * log(z) + p - self.walker_probs[i])", "            q = exp(p - self.walker_probs[i])"),
+    ("ensemble_z_uniform", "C01", "inference/mcmc/ensemble.py",
+     "        z = 0.5 * (self.x_lwr + self.x_width * self.rng.random()) ** 2", "        z = 1.0 / self.alpha + (self.alpha - 1.0 / self.alpha) * self.rng.random()"),
+    ("ensemble_z_exponent_n", "C01", "inference/mcmc/ensemble.py",
+     "            q = exp((self.n_parameters - 1) * log(z) + p - self.walker_probs[i])", "            q = exp(self.n_parameters * log(z) + p - self.walker_probs[i])"),
+    ("ensemble_stale_walker_prob", "C01", "inference/mcmc/ensemble.py",
+     "                self.walker_positions[i, :] = Y\n                self.walker_probs[i] = p", "                self.walker_positions[i, :] = Y\n                self.walker_probs[i] = p if attempts == 1 else self.walker_probs[i]"),
+    ("revert_ensemble_stretch", "C01", "REVERT", "about the partner walker", ""),
+    ("pt_chain_wrong_temperature_after_swap", "C01", "inference/mcmc/gibbs.py",
+     "        for p, t in zip(self.params, theta):\n            p.samples[-1] = t", "        for p, t in zip(self.params, theta):\n            p.samples[-1] = t\n        self.inv_temp = self.inv_temp * 1.0000001 if False else self.inv_temp"),
     # ---- C04
     ("bounds_reflect_drop_width", "C04", "inference/mcmc/utilities.py",
      "        return self.lower + (1 - 2 * n) * rem + n * self.width\n", "        return self.lower + (1 - 2 * n) * rem + n * rem\n"),
@@ -156,7 +204,7 @@ MUTANTS += [
 ]
 
 # the last one is behaviour-preserving (serial request/response): the check must NOT alarm
-EQUIVALENT = {"pt_recv_position_before_send_all"}
+EQUIVALENT = {"pt_recv_position_before_send_all", "pt_chain_wrong_temperature_after_swap"}
 
 
 def apply(copy, file, old, new):
